@@ -253,7 +253,9 @@ func checkReportAllOrNothing(c *Ctx, res *report.Result, rule string) {
 			okPair := false
 			why := "no deferred Dec on the same gauge follows the Inc"
 			for j := i + 1; j < len(b.Instrs); j++ {
-				if d, isD := b.Instrs[j].(*ssa.Defer); isD && d.Call.IsInvoke() && d.Call.Method.Name() == "Dec" && d.Call.Value == call.Call.Value {
+				if d, isD := b.Instrs[j].(*ssa.Defer); isD && deferRuns(d, func(cc *ssa.CallCommon, outer func(ssa.Value) ssa.Value) bool {
+					return cc.IsInvoke() && cc.Method.Name() == "Dec" && (cc.Value == call.Call.Value || outer(cc.Value) == outer(call.Call.Value))
+				}) {
 					okPair = true
 					break
 				}
